@@ -111,6 +111,11 @@ struct BlobSet
 
 static void check_blobs(World& w, int64_t id, const BlobSet& b, const dj::track_snapshot* snap)
 {
+    // rows written through the table API hold whatever the caller gave: only decodability is judged there
+    const bool shapes = !(w.plan.cfg.table_api && w.plan.cfg.profile.compare(0, 5, "table") == 0);
+    if (!shapes)
+        snap = nullptr;
+
     std::string F = w.fam();
     std::string ids = std::to_string(id);
     auto bad11 = [&](const std::string& kind, const std::string& why) {
@@ -253,7 +258,7 @@ static void check_blobs(World& w, int64_t id, const BlobSet& b, const dj::track_
                     for (size_t i = 0; i < g->size(); ++i)
                     {
                         int64_t exp = i + 1 < g->size() ? (*g)[i + 1].beat - (*g)[i].beat : 0;
-                        if ((*g)[i].beats_to_next != exp)
+                        if (shapes && (*g)[i].beats_to_next != exp)
                             bad02("beatData", "beats-until-next", "marker " + std::to_string(i));
                     }
                 if (snap)
@@ -288,7 +293,7 @@ static void check_blobs(World& w, int64_t id, const BlobSet& b, const dj::track_
                 for (auto& q : o.pts)
                     for (int k = 0; k < 3; ++k)
                         mx[k] = std::max(mx[k], q[k]);
-                if (mx != o.max)
+                if (shapes && mx != o.max)
                     bad02("overviewWaveFormData", "maximum-entry", "trailing entry is not the per-band maximum");
                 if (snap && w.v2)
                 {
@@ -411,14 +416,16 @@ void World::audit()
                 int64_t id = sqlite3_column_int64(st, 0);
                 track_rows.insert(id);
                 std::string path = col_text(st, 1), fn = col_text(st, 2), ft = col_text(st, 3);
-                if (fn != basename_of(path))
+                // rows written through the table API store the derived columns exactly as the caller gave them
+                const bool derived = !(plan.cfg.table_api && plan.cfg.profile.compare(0, 5, "table") == 0);
+                if (derived && fn != basename_of(path))
                     report("C11", "C11|filename|v2|mismatch", "Track " + std::to_string(id) + ": filename '" + fn + "' is not the base name of path '" + path + "'");
                 std::string ext;
-                if (ext_of(path, ext) && ft != ext)
+                if (derived && ext_of(path, ext) && ft != ext)
                     report("C11", "C11|fileType|v2|mismatch", "Track " + std::to_string(id) + ": fileType '" + ft + "' is not the extension of path '" + path + "'");
-                if (col_text(st, 4) != db_uuid)
+                if (derived && col_text(st, 4) != db_uuid)
                     report("C11", "C11|originDatabaseUuid|v2|mismatch", "Track " + std::to_string(id) + ": originDatabaseUuid differs from Information.uuid");
-                if (sqlite3_column_int64(st, 5) != id)
+                if (derived && sqlite3_column_int64(st, 5) != id)
                     report("C11", "C11|originTrackId|v2|mismatch", "Track " + std::to_string(id) + ": originTrackId = " + std::to_string(sqlite3_column_int64(st, 5)));
                 BlobSet b;
                 b.track = col_blob(st, 6);
